@@ -34,6 +34,9 @@ type Method struct {
 	ClientStream bool   `json:"client_stream,omitempty"`
 	ServerStream bool   `json:"server_stream,omitempty"`
 	Comment      string `json:"comment,omitempty"`
+	// False lists boolean options written out as "= false" (rpc, unicast, multicast,
+	// quorumcall, correctable, async, per_node_arg): present in the descriptor, value false.
+	False []string `json:"false,omitempty"`
 }
 
 // Field is a message field (only what the harness needs).
@@ -197,6 +200,25 @@ func Build(f File) *descriptorpb.FileDescriptorProto {
 			}
 			if m.CustomReturn != "" {
 				proto.SetExtension(opts, gorums.E_CustomReturnType, m.CustomReturn)
+				has = true
+			}
+			for _, o := range m.False {
+				switch o {
+				case "rpc":
+					proto.SetExtension(opts, gorums.E_Rpc, false)
+				case "unicast":
+					proto.SetExtension(opts, gorums.E_Unicast, false)
+				case "multicast":
+					proto.SetExtension(opts, gorums.E_Multicast, false)
+				case "quorumcall":
+					proto.SetExtension(opts, gorums.E_Quorumcall, false)
+				case "correctable":
+					proto.SetExtension(opts, gorums.E_Correctable, false)
+				case "async":
+					proto.SetExtension(opts, gorums.E_Async, false)
+				case "per_node_arg":
+					proto.SetExtension(opts, gorums.E_PerNodeArg, false)
+				}
 				has = true
 			}
 			if has {
